@@ -2,6 +2,7 @@
 //! Prints one JSON report on the last line of stdout.
 mod c17;
 mod c25;
+mod e2e;
 mod ty;
 mod lean;
 mod report;
